@@ -8686,3 +8686,70 @@ func ruleTipSnapshot(c *Ctx) {
 		c.OK("tip-snapshot", pos, fmt.Sprintf("dBFT's CurrentBlockHash and CurrentHeight answer from one pair (%s, %s) assigned together", bf.Name(), hf.Name()))
 	}
 }
+
+// rulePrimaryIndexBounded (C19): the header's PrimaryIndex is a position in the validator list the block was *made*
+// by; the honest validators compute it as (index - view) mod the number of current validators and sign it. Whoever
+// uses it as an index into a list has to be sure the list is that one, or at least as long: NEO.OnPersist replaces
+// the next-block validators at a committee refresh before GAS.OnPersist pays the primary out of that list, so at a
+// height where ValidatorsHistory shrinks the validator count the index can lie outside it - a block that M validators
+// committed is rejected by every ledger ("index out of range") and the chain halts one block below. Every index
+// expression in the natives whose index is the header's PrimaryIndex follows a test of that index against the
+// length of the indexed list.
+func rulePrimaryIndexBounded(c *Ctx) {
+	n := 0
+	for _, fd := range c.P.AllFuncDecls() {
+		if fd.Decl.Body == nil || pkgRel(fd.Pkg.Types) != "pkg/core/native" {
+			continue
+		}
+		info := fd.Pkg.TypesInfo
+		mentionsPI := func(e ast.Node) bool {
+			hit := false
+			ast.Inspect(e, func(x ast.Node) bool {
+				if se, ok := x.(*ast.SelectorExpr); ok && se.Sel.Name == "PrimaryIndex" {
+					if v, ok := info.ObjectOf(se.Sel).(*types.Var); ok && v.IsField() {
+						hit = true
+					}
+				}
+				return true
+			})
+			return hit
+		}
+		k := 0
+		ast.Inspect(fd.Decl.Body, func(x ast.Node) bool {
+			ix, ok := x.(*ast.IndexExpr)
+			if !ok || !mentionsPI(ix.Index) {
+				return true
+			}
+			if _, isSl := info.TypeOf(ix.X).Underlying().(*types.Slice); !isSl {
+				return true
+			}
+			n++
+			k++
+			key := fmt.Sprintf("%s#%d", shortSym(FuncKey(fd.Obj)), k)
+			root := rootObj(info, ix.X)
+			guarded := false
+			ast.Inspect(fd.Decl.Body, func(y ast.Node) bool {
+				is, ok := y.(*ast.IfStmt)
+				if !ok || is.Pos() > ix.Pos() || !mentionsPI(is.Cond) {
+					return true
+				}
+				ast.Inspect(is.Cond, func(z ast.Node) bool {
+					if call, ok := z.(*ast.CallExpr); ok && len(call.Args) == 1 {
+						if id, ok := call.Fun.(*ast.Ident); ok && id.Name == "len" && rootObj(info, call.Args[0]) == root && root != nil {
+							guarded = true
+						}
+					}
+					return true
+				})
+				return true
+			})
+			if guarded {
+				c.OK(key, c.P.Pos(ix.Pos()), "the header's PrimaryIndex is compared with the length of the list it indexes")
+			} else {
+				c.Fail(key, c.P.Pos(ix.Pos()), fmt.Sprintf("%s indexes %s with the header's PrimaryIndex without comparing it with the length of that list: the index was computed by the validators that made the block, over *their* number, while the list is what the ledger holds at this point of the block's processing (NEO.OnPersist has already installed the validators of the next block); where the two differ in size - a height at which ValidatorsHistory lowers the validator count - a block that M validators committed fails in OnPersist with 'index out of range' on every ledger, their own included, and the chain halts", FuncKey(fd.Obj), types.ExprString(ix.X)))
+			}
+			return true
+		})
+	}
+	c.Floor("index expressions over the header's PrimaryIndex in the natives", n, 1)
+}
